@@ -20,27 +20,32 @@ Desc(n) == [i \in 1..n |-> Dg((10 - i) % 10)]
 Mixed(n, a, b) == [i \in 1..n |-> Dg((a * i + b) % 10)]
 Bodies(n) == {Rep(d, n) : d \in (IF Scope = "quick" THEN {0, 1, 5, 9} ELSE 0..9)} \cup {Asc(n), Desc(n), Mixed(n, 3, 1), Mixed(n, 7, 4)}
                \cup (IF Scope = "quick" THEN {} ELSE {Mixed(n, 1, 7), Mixed(n, 9, 2), Mixed(n, 3, 8), Mixed(n, 7, 0)})
+\* arithmetic progressions of bodies, long enough to meet every residue of the scheme's modulus
+\* (check values 0, 10, 97, ... are where the special cases of the national rules live)
+RECURSIVE ToDigits(_, _)
+ToDigits(v, n) == IF n = 0 THEN <<>> ELSE Append(ToDigits(v \div 10, n - 1), Dg(v % 10))
+Prog(n, start, count) == {ToDigits(start + j, n) : j \in 0..(count - 1)}
 Checks1 == {<<Dg(k)>> : k \in 0..9}
 Checks2 == {<<Dg(a), Dg(b)>> : a \in 0..9, b \in 0..9}
 Letters1 == {<<x>> : x \in 65..90}
 \* candidate codes per regime: prefix o body o check
 Cands(cc) ==
-    CASE cc = "AT" -> {<<85>> \o b \o k : b \in Bodies(7), k \in Checks1}
-      [] cc = "BE" -> {<<Dg(0)>> \o b \o k : b \in Bodies(7), k \in Checks2}
+    CASE cc = "AT" -> {<<85>> \o b \o k : b \in Bodies(7) \cup Prog(7, 1234500, 12), k \in Checks1}
+      [] cc = "BE" -> {<<Dg(0)>> \o b \o k : b \in Bodies(7) \cup Prog(7, 1000060, 100), k \in Checks2}
       [] cc = "BR" -> {b \o k : b \in Bodies(12), k \in Checks2}
-      [] cc = "CH" -> {<<69>> \o b \o k : b \in Bodies(8), k \in Checks1}
+      [] cc = "CH" -> {<<69>> \o b \o k : b \in Bodies(8) \cup Prog(8, 10041630, 24), k \in Checks1}
       [] cc = "CO" -> {b \o k : b \in Bodies(9) \cup Bodies(8), k \in Checks1}
-      [] cc = "DE" -> {b \o k : b \in Bodies(8), k \in Checks1}
+      [] cc = "DE" -> {b \o k : b \in Bodies(8) \cup Prog(8, 13634500, 12), k \in Checks1}
       [] cc = "ES" -> {b \o k : b \in Bodies(8), k \in Letters1}
                       \cup {<<x>> \o b \o k : x \in {88, 89, 90, 75, 76}, b \in Bodies(7), k \in Letters1}
                       \cup {<<x>> \o b \o k : x \in {65, 66, 71, 78, 81, 87}, b \in Bodies(7), k \in Checks1 \cup {<<y>> : y \in 65..74}}
-      [] cc = "FR" -> {k \o b : b \in Bodies(9), k \in Checks2}
-      [] cc = "GB" -> {b \o k : b \in Bodies(7), k \in Checks2}
-      [] cc = "EL" -> {b \o k : b \in Bodies(8), k \in Checks1}
+      [] cc = "FR" -> {k \o b : b \in Bodies(9) \cup Prog(9, 732829300, 100), k \in Checks2}
+      [] cc = "GB" -> {b \o k : b \in Bodies(7) \cup Prog(7, 4344300, 100), k \in Checks2}
+      [] cc = "EL" -> {b \o k : b \in Bodies(8) \cup Prog(8, 92566700, 24), k \in Checks1}
       [] cc = "IT" -> {b \o k : b \in Bodies(10), k \in Checks1}
-      [] cc = "NL" -> {b \o k \o <<66, 48, 49>> : b \in Bodies(8), k \in Checks1}
-      [] cc = "PL" -> {b \o k : b \in Bodies(9), k \in Checks1}
-      [] cc = "PT" -> {b \o k : b \in Bodies(8), k \in Checks1}
+      [] cc = "NL" -> {b \o k \o <<66, 48, 49>> : b \in Bodies(8) \cup Prog(8, 21890950, 24), k \in Checks1}
+      [] cc = "PL" -> {b \o k : b \in Bodies(9) \cup Prog(9, 526000140, 24), k \in Checks1}
+      [] cc = "PT" -> {b \o k : b \in Bodies(8) \cup Prog(8, 50000000, 24), k \in Checks1}
 ValidCodes(cc) == {c \in Cands(cc) : Valid(cc, c)}
 
 \* single-character substitutions (digits by digits, letters by letters)
